@@ -476,43 +476,38 @@ impl ChainStorage for ArrowChainStorage {
             return Ok(());
         }
 
-        stats
-            .into_iter()
-            .zip(self.stats_builders.iter_mut())
-            .try_for_each(|((name, value), (expected_name, builder))| {
-                if name != expected_name {
-                    panic!(
-                        "Draw name mismatch: expected {}, got {}",
-                        expected_name, name
-                    );
-                }
+        // The incoming lists follow the order of the builders. A flattened optional
+        // group (`#[storable(flatten)] Option<T>`) that is `None` leaves its entries
+        // out of the list: those columns get a null for this draw.
+        let mut stats = stats.into_iter().peekable();
+        for (expected_name, builder) in self.stats_builders.iter_mut() {
+            let value = stats
+                .next_if(|(name, _)| name == expected_name)
+                .and_then(|(_, value)| value);
+            if let Some(value) = value {
+                builder.append_value(value)?;
+            } else {
+                builder.append_null()?;
+            }
+        }
+        if let Some((name, _)) = stats.next() {
+            anyhow::bail!("Unexpected statistic {} (unknown or out of order)", name);
+        }
 
-                if let Some(value) = value {
-                    builder.append_value(value)?;
-                } else {
-                    builder.append_null()?;
-                }
-                Ok::<_, anyhow::Error>(())
-            })?;
-
-        draws
-            .into_iter()
-            .zip(self.draw_builders.iter_mut())
-            .try_for_each(|((name, value), (expected_name, builder))| {
-                if name != expected_name {
-                    panic!(
-                        "Draw name mismatch: expected {}, got {}",
-                        expected_name, name
-                    );
-                }
-
-                if let Some(value) = value {
-                    builder.append_value(value)?;
-                } else {
-                    builder.append_null()?;
-                }
-                Ok::<_, anyhow::Error>(())
-            })?;
+        let mut draws = draws.into_iter().peekable();
+        for (expected_name, builder) in self.draw_builders.iter_mut() {
+            let value = draws
+                .next_if(|(name, _)| name == expected_name)
+                .and_then(|(_, value)| value);
+            if let Some(value) = value {
+                builder.append_value(value)?;
+            } else {
+                builder.append_null()?;
+            }
+        }
+        if let Some((name, _)) = draws.next() {
+            anyhow::bail!("Unexpected draw variable {} (unknown or out of order)", name);
+        }
 
         self.draw_count += 1;
 
